@@ -46,6 +46,10 @@ def contigs():
     for x in ALPHABET:
         out.append((f'e{x}', f'{x}GTAC{x}'))
     out.append(('eGC', 'GGCC'))              # G at 0 and 1, C at the last two positions
+    # the FIRST position whose context is complete: a G on position 2 (both preceding bases exist) and a C on the third
+    # position from the end (both following bases exist) - one off the truncated ones above
+    for x in ALPHABET:
+        out.append((f's{x}', f'{x}{x}GTAC{x}{x}'))
     out.append(('lc', 'tacgccagctggaca'))
     # contigs shorter than a three-base context (a C / G whose neighbours do not exist on either side)
     out.extend([('c1', 'C'), ('g1', 'G'), ('cg', 'CG'), ('gc', 'GC')])
